@@ -221,6 +221,8 @@ enum Use {
     ConstExprSize,
     /// an unsuffixed repeat literal bound by `let`, later used at a declared const-sized type
     RepeatLet,
+    /// a repeat literal whose element can fail and has a side effect (also for size 0)
+    RepeatFailing,
 }
 
 /// (source using const R, source with the value substituted, number of input parties description)
@@ -247,6 +249,10 @@ fn use_sources(u: Use, t: CTy, rname: &str, rval: i128) -> Option<(String, Strin
             (format!("pub fn main(x: {tn}) -> {tn} {{\n  x {op} {rname}\n}}\n"), format!("pub fn main(x: {tn}) -> {tn} {{\n  x {op} {rl}\n}}\n"))
         }
         Use::Index => (format!("pub fn main(arr: [u8; 3], y: u8) -> u8 {{\n  arr[{rname}]\n}}\n"), format!("pub fn main(arr: [u8; 3], y: u8) -> u8 {{\n  arr[{rl}]\n}}\n")),
+        Use::RepeatFailing => (
+            format!("pub fn main(x: u8, y: u8) -> ([u8; {rname}], u8) {{\n  let mut c = x;\n  let a = [{{ c = c ^ 1u8; c / y }}; {rname}];\n  (a, c)\n}}\n"),
+            format!("pub fn main(x: u8, y: u8) -> ([u8; {n}], u8) {{\n  let mut c = x;\n  let a = [{{ c = c ^ 1u8; c / y }}; {n}];\n  (a, c)\n}}\n"),
+        ),
         Use::RepeatLet => (
             format!("pub fn main(x: u8) -> [u8; {rname}] {{\n  let a = [7; {rname}];\n  let b: [u8; {rname}] = a;\n  let mut c = b;\n  for i in 0usize..1usize {{\n    c[i] = x;\n  }}\n  c\n}}\n"),
             format!("pub fn main(x: u8) -> [u8; {n}] {{\n  let a = [7; {n}];\n  let b: [u8; {n}] = a;\n  let mut c = b;\n  for i in 0usize..1usize {{\n    c[i] = x;\n  }}\n  c\n}}\n"),
@@ -278,6 +284,15 @@ fn input_sets(u: Use, t: CTy, size: usize) -> Vec<Vec<Vec<bool>>> {
                     a.extend(u8bits(fill.wrapping_add(k as u8)));
                 }
                 out.push(vec![a, u8bits(3)]);
+            }
+            out
+        }
+        Use::RepeatFailing => {
+            let mut out = vec![];
+            for x in [0u8, 1, 200] {
+                for y in [0u8, 1, 3] {
+                    out.push(vec![u8bits(x), u8bits(y)]);
+                }
             }
             out
         }
@@ -343,7 +358,7 @@ fn check_pair(t: CTy, sec_name: &str, sec: &Section, u: Use, ext: &HashMap<(&'st
     }
     let (rname, _) = sec.last().unwrap();
     let rval = cvals[rname];
-    let size_use = matches!(u, Use::ArrayTypeSize | Use::Repeat | Use::SingleArrayParties | Use::LoopCount | Use::ConstExprSize | Use::RepeatLet);
+    let size_use = matches!(u, Use::ArrayTypeSize | Use::Repeat | Use::SingleArrayParties | Use::LoopCount | Use::ConstExprSize | Use::RepeatLet | Use::RepeatFailing);
     if size_use && (!(0..=48).contains(&rval) || wide_max > 48) {
         // resource bound: never ask the compiler for an astronomically large array
         cnt.skipped_big.fetch_add(1, Ordering::Relaxed);
@@ -673,7 +688,7 @@ pub fn run(tier: Tier) -> i32 {
             }
             let exts: Vec<_> = exts.into_iter().collect();
             let uses: Vec<Use> = match t {
-                CTy::Int(IntTy::Usize) => vec![Use::ArrayTypeSize, Use::Repeat, Use::SingleArrayParties, Use::LoopCount, Use::Value, Use::Index, Use::ConstExprSize, Use::RepeatLet],
+                CTy::Int(IntTy::Usize) => vec![Use::ArrayTypeSize, Use::Repeat, Use::SingleArrayParties, Use::LoopCount, Use::Value, Use::Index, Use::ConstExprSize, Use::RepeatLet, Use::RepeatFailing],
                 _ => vec![Use::Value],
             };
             for u in uses {
